@@ -16,5 +16,19 @@ PROPS = {
     },
 }
 
+PROPS["C18"] = {
+    "level": "exploration",
+    "engines": [
+        {"bin": "hv", "args": ["c18"]},
+        {"bin": "py", "fn": "c18_xcheck", "tag": "cpython"},
+    ],
+    "min": {"quick": {"evaluations": 40_000_000, "date_cases": 5_000_000, "b64_decode_cases": 17_000_000},
+            "thorough": {"evaluations": 45_000_000}},
+    "assumptions": [],
+    "level_text": "The four primitives are executed on the property's complete finite spaces (all byte pairs, all 2^24 Base64 groups, all 65^4 decode groups, all short percent strings, every day 1970-9999) and on random long inputs; every output is compared with an independent reference and a dumped sample (thorough: block digests of the complete date and Base64 spaces) with CPython.",
+    "level_note": "Trusted: the Rust reference implementations in hvcommon (validated each run against CPython hashlib/base64/urllib.parse/datetime); RFC 4648 3.5 lets a decoder accept or reject non-canonical trailing bits, so both are allowed.",
+    "technique": "runtime monitoring: differential oracle (independent reference + CPython) over bounded-exhaustive inputs",
+}
+
 # properties without a check, with the reason (kept current)
 NOT_CLAIMED = {}
